@@ -20,6 +20,7 @@ import (
 	"fmt"
 	"iter"
 	"reflect"
+	"runtime"
 	"sort"
 	"syscall"
 	"unsafe"
@@ -112,6 +113,10 @@ var st struct {
 	pipesOK   bool
 	aborted   bool
 	seq       bool
+	checkGoid bool
+	goids     [MaxTasks]uint64
+	seqGoid   uint64
+	foreign   uint64
 }
 
 var hits [MaxSites]uint32
@@ -278,12 +283,70 @@ func record(t int, k uint64, next int, site uint32, end bool) {
 	}
 }
 
+// SetCheckGoroutine makes Yield verify that the caller is the task holding the
+// token and ignore everybody else.  Needed only when the instrumented library
+// starts goroutines of its own (the instrumenter counts `go` statements): such a
+// goroutine runs unscheduled (the race detector still watches it) and must not
+// touch scheduler state.  Costs a runtime.Stack call per yield, hence optional.
+func SetCheckGoroutine(on bool) { setCheckGoid(on) }
+
+//go:norace
+//go:noinline
+func setCheckGoid(on bool) { st.checkGoid = on }
+
+//go:norace
+//go:noinline
+func curGoid() uint64 {
+	var buf [40]byte
+	n := runtime.Stack(buf[:], false)
+	// "goroutine 123 [running]:"
+	var id uint64
+	for i := len("goroutine "); i < n; i++ {
+		c := buf[i]
+		if c < '0' || c > '9' {
+			break
+		}
+		id = id*10 + uint64(c-'0')
+	}
+	return id
+}
+
+//go:norace
+//go:noinline
+func foreignCaller() bool {
+	if !st.checkGoid {
+		return false
+	}
+	g := curGoid()
+	if st.seq || st.ntasks < 2 {
+		if g != st.seqGoid {
+			st.foreign++
+			return true
+		}
+		return false
+	}
+	if g != st.goids[st.cur] {
+		st.foreign++
+		return true
+	}
+	return false
+}
+
+// ForeignYields reports how many yields came from goroutines that are not tasks.
+//
+//go:norace
+//go:noinline
+func ForeignYields() uint64 { return st.foreign }
+
 // Yield is called by instrumented code before every statement.
 //
 //go:norace
 //go:noinline
 func Yield(site uint32) {
 	if !st.active {
+		return
+	}
+	if st.checkGoid && foreignCaller() {
 		return
 	}
 	if site < MaxSites {
@@ -363,6 +426,9 @@ func Yield(site uint32) {
 //go:norace
 //go:noinline
 func taskStartWait(t int) {
+	if st.checkGoid {
+		st.goids[t] = curGoid()
+	}
 	rawRead(st.pipes[t].r)
 }
 
@@ -398,6 +464,9 @@ func blockedYield() bool {
 	if !st.active || st.ntasks < 2 || st.seq {
 		return false
 	}
+	if st.checkGoid && foreignCaller() {
+		return false
+	}
 	t := st.cur
 	st.stuck++
 	if st.stuck > 2*st.ntasks+2 {
@@ -431,6 +500,14 @@ func progress() { st.stuck = 0 }
 
 //go:norace
 //go:noinline
+func markSelfDeadlock() {
+	if st.active && (st.ntasks < 2 || st.seq) && !st.checkGoid {
+		st.res.Deadlock = true
+	}
+}
+
+//go:norace
+//go:noinline
 func deadlocked() bool { return st.res.Deadlock }
 
 // Lock is the shim for sync.Mutex.Lock / sync.RWMutex.Lock / RLock:
@@ -442,12 +519,16 @@ func Lock(try func() bool, lock func()) {
 	}
 	for !try() {
 		if !blockedYield() {
-			// Simulated deadlock (or not simulating any more): fall back to the
-			// real blocking call so that behaviour is never changed; the run is
-			// already marked.
+			// Nobody to hand the token to.  With a single task (or in the
+			// sequential phase) the lock can only be held by this very task further
+			// up its own stack: a certain self-deadlock - unless the library runs
+			// goroutines of its own, in which case one of them may hold it.
+			markSelfDeadlock()
 			if deadlocked() {
 				DeadlockHook()
 			}
+			// hook returned (or not a deadlock): the real blocking call, so that
+			// behaviour is never changed
 			lock()
 			return
 		}
@@ -523,6 +604,7 @@ func Run(cfg Config, tasks []func()) Result {
 		panic("simrt: too many tasks")
 	}
 	begin(cfg, n)
+	noteSeqGoid()
 	if n == 1 {
 		setCur(0)
 		setActive(true)
@@ -566,6 +648,7 @@ func RunSeq(cfg Config, tasks []func()) Result {
 		panic("simrt: too many tasks")
 	}
 	begin(cfg, n)
+	noteSeqGoid()
 	setSeq(true)
 	for t := range tasks {
 		setCur(t)
@@ -582,6 +665,14 @@ func RunSeq(cfg Config, tasks []func()) Result {
 //go:norace
 //go:noinline
 func setSeq(b bool) { st.seq = b }
+
+//go:norace
+//go:noinline
+func noteSeqGoid() {
+	if st.checkGoid {
+		st.seqGoid = curGoid()
+	}
+}
 
 //go:norace
 //go:noinline
@@ -625,6 +716,9 @@ func ioCount() uint64 { return ioHits }
 //go:noinline
 func mapOrder(n int) (policy int, seed uint64) {
 	if !st.active {
+		return MapCanonical, 0
+	}
+	if st.checkGoid && foreignCaller() {
 		return MapCanonical, 0
 	}
 	t := st.cur
